@@ -15,7 +15,8 @@ EXPLANATION = (
     "bytes // (itemsize * nc) (floor-divided, int()- or floor()-ed) BEFORE the division by fs, so Reader.ns's later round() "
     "can only undo float error and never rounds a trailing partial frame up; the compressed branch uses the decoded row count; "
     "OnlineReader.ns floors; (D2) the mismatch test is `nc * ns * itemsize != nbytes`, the rewrite cannot follow the "
-    "np.memmap call, the memmap is read-only with shape (self.ns, self.nc), and Reader.rl is ns / fs. That the exposed "
+    "np.memmap call, the memmap is read-only with shape (self.ns, self.nc), and Reader.rl is ns / fs; (D3) the byte count behind "
+    "the repaired duration is a fresh stat at open time, not the size the constructor cached (recording still in progress). That the exposed "
     "values equal the file prefix is NOT decided (numpy memmap semantics, trusted)."
 )
 ASSUMPTIONS = [
@@ -175,3 +176,5 @@ def d2_order(ctx):
 def run(ctx):
     ctx.run(d1_floor)
     ctx.run(d2_order)
+    from rules import C02
+    ctx.run(C02.d5_cached_size, rule_id="D3", unconditional=True)
